@@ -1,1 +1,1451 @@
-/-! # C17 — property theorems (to be filled) -/
+import PraatModel.Extract
+import PraatModel.Props.C15
+import PraatModel.Props.C16
+import PraatModel.Props.C06
+import PraatModel.Props.C12
+
+/-!
+# C17 — interval-driven audio extraction keeps and drops exactly the marked samples
+
+Everything is about the model `PraatModel/Extract.lean` (which builds on `Audio.lean`, on the
+`invertIntervalList` of `Query.lean` and on the `Textgrid.crop` of `Textgrid.lean`).  The times of one
+call are integers over a common denominator `den > 0`, so the theorems hold for all rational (hence
+all binary64) times, recordings of any length and any positive sample width.
+
+| clause | theorem(s) |
+|---|---|
+| keep list | `keep_spec_partial` (non-empty list), `keep_empty_counterexample`, `window_eq_getFrames`, `window_samples` |
+| delete list | `invert_eq_complement`, `complement_spec`, `delete_spec`, `delete_eq_keep_complement` |
+| replacement | `replace_keep`, `replace_delete` (original length, kept samples at their original position) |
+| rejection | `both_lists_rejected`, `out_of_range_rejected_partial`, `negative_time_counterexample` |
+| generators | `silence_length`, `silence_zero`, `sine_length` |
+| extractSubwav | `extract_spec` |
+| splitAudioOnTier | `split_length`, `split_names_nodup`, `split_frames`, `split_tg_span` |
+-/
+open Audio Extract
+namespace C17
+
+/-! ## 1. the order of the marked intervals -/
+
+theorem le_iff (a b : Marked) :
+    Marked.le a b = true ↔
+      a.s < b.s ∨ (a.s = b.s ∧ (a.e < b.e ∨ (a.e = b.e ∧ (a.keep = true → b.keep = true)))) := by
+  obtain ⟨as, ae, ak⟩ := a; obtain ⟨bs, be, bk⟩ := b
+  simp only [Marked.le]
+  by_cases h1 : as < bs
+  · simp [h1]
+  · by_cases h2 : bs < as
+    · simp [h1, h2]; omega
+    · have : as = bs := by omega
+      subst this
+      by_cases h3 : ae < be
+      · simp [h3]
+      · by_cases h4 : be < ae
+        · simp [h3, h4]; omega
+        · have : ae = be := by omega
+          subst this
+          cases ak <;> cases bk <;> simp
+
+theorem le_trans (a b c : Marked) (h1 : Marked.le a b = true) (h2 : Marked.le b c = true) : Marked.le a c = true := by
+  rw [le_iff] at *
+  rcases h1 with h1 | ⟨h1, h1' | ⟨h1', h1''⟩⟩ <;> rcases h2 with h2 | ⟨h2, h2' | ⟨h2', h2''⟩⟩
+  all_goals first
+    | (left; omega)
+    | (right; refine ⟨by omega, ?_⟩; first | (left; omega) | (right; exact ⟨by omega, fun h => h2'' (h1'' h)⟩))
+
+theorem le_total (a b : Marked) : (Marked.le a b || Marked.le b a) = true := by
+  rw [Bool.or_eq_true, le_iff, le_iff]
+  rcases Int.lt_trichotomy a.s b.s with h | h | h
+  · left; left; exact h
+  · rcases Int.lt_trichotomy a.e b.e with h' | h' | h'
+    · left; right; exact ⟨h, Or.inl h'⟩
+    · cases hk : a.keep
+      · left; right; exact ⟨h, Or.inr ⟨h', by simp⟩⟩
+      · right; right; exact ⟨h.symm, Or.inr ⟨h'.symm, fun _ => rfl⟩⟩
+    · right; right; exact ⟨h.symm, Or.inl h'⟩
+  · right; left; exact h
+
+theorem le_antisymm (a b : Marked) (h1 : Marked.le a b = true) (h2 : Marked.le b a = true) : a = b := by
+  rw [le_iff] at h1 h2
+  obtain ⟨as, ae, ak⟩ := a; obtain ⟨bs, be, bk⟩ := b
+  simp only at h1 h2
+  have hs : as = bs := by omega
+  subst hs
+  have he : ae = be := by omega
+  subst he
+  have hk : ak = bk := by
+    rcases h1 with h1 | ⟨_, h1 | ⟨_, h1⟩⟩ <;> rcases h2 with h2 | ⟨_, h2 | ⟨_, h2⟩⟩ <;> try omega
+    cases ak <;> cases bk <;> simp_all
+  subst hk; rfl
+
+/-- a list sorted by the tuple order that has the same members as the input *is* the sorted input -/
+theorem mergeSort_eq_of_sorted_perm (l t : List Marked) (hp : l.Perm t) (hs : t.Pairwise (fun a b => Marked.le a b = true)) :
+    l.mergeSort Marked.le = t := by
+  apply List.Perm.eq_of_pairwise (le := fun a b => Marked.le a b = true)
+  · intro a b _ _ h1 h2; exact le_antisymm a b h1 h2
+  · exact List.pairwise_mergeSort (fun a b c => le_trans a b c) le_total l
+  · exact hs
+  · exact (List.mergeSort_perm l Marked.le).trans hp
+
+/-! ## 2. chains, the complement, the time-ordered tiling -/
+
+/-- `L` is a list of positive-length intervals, sorted, pairwise disjoint (touching allowed), inside `[a, b]` -/
+def InChain : Int → List (Int × Int) → Int → Prop
+  | a, [], b => a ≤ b
+  | a, p :: rest, b => a ≤ p.1 ∧ p.1 < p.2 ∧ InChain p.2 rest b
+
+/-- the same, in the vocabulary of the property: positive, within `[lo, hi]`, sorted and disjoint -/
+def SortedDisjoint (L : List (Int × Int)) (lo hi : Int) : Prop :=
+  lo ≤ hi ∧ (∀ p ∈ L, p.1 < p.2 ∧ lo ≤ p.1 ∧ p.2 ≤ hi) ∧ L.Pairwise (fun x y => x.2 ≤ y.1)
+
+instance (L : List (Int × Int)) (lo hi : Int) : Decidable (SortedDisjoint L lo hi) :=
+  inferInstanceAs (Decidable (_ ∧ _ ∧ _))
+
+theorem inChain_of_sortedDisjoint (L : List (Int × Int)) (lo hi : Int) (h : SortedDisjoint L lo hi) : InChain lo L hi := by
+  obtain ⟨hlh, hin, hpw⟩ := h
+  induction L generalizing lo with
+  | nil => exact hlh
+  | cons p rest ih =>
+    obtain ⟨hp1, hp2, hp3⟩ := hin p (by simp)
+    obtain ⟨hpr, hrest⟩ := List.pairwise_cons.1 hpw
+    refine ⟨hp2, hp1, ih p.2 hp3 ?_ hrest⟩
+    intro q hq
+    obtain ⟨hq1, _, hq3⟩ := hin q (List.mem_cons_of_mem _ hq)
+    exact ⟨hq1, hpr q hq, hq3⟩
+
+theorem InChain.le : ∀ {a : Int} {L : List (Int × Int)} {b : Int}, InChain a L b → a ≤ b
+  | _, [], _, h => h
+  | _, p :: rest, _, ⟨h1, h2, h3⟩ => by have := InChain.le h3; omega
+
+/-- the gaps of `[a, b]` not covered by `L`, in time order (no empty piece) -/
+def complement : Int → List (Int × Int) → Int → List (Int × Int)
+  | a, [], b => if a < b then [(a, b)] else []
+  | a, p :: rest, b => (if a < p.1 then [(a, p.1)] else []) ++ complement p.2 rest b
+
+/-- `[a, b]` cut at the intervals of `L`, in time order: the members of `L` carry the label `inner`,
+the gaps the opposite label -/
+def tiling (inner : Bool) : Int → List (Int × Int) → Int → List Marked
+  | a, [], b => if a < b then [⟨a, b, !inner⟩] else []
+  | a, p :: rest, b => (if a < p.1 then [⟨a, p.1, !inner⟩] else []) ++ ⟨p.1, p.2, inner⟩ :: tiling inner p.2 rest b
+
+/-- consecutive pieces of positive length from `a` to `b` -/
+def Tiles : Int → List Marked → Int → Prop
+  | a, [], b => a = b
+  | a, m :: rest, b => m.s = a ∧ m.s < m.e ∧ Tiles m.e rest b
+
+theorem tiling_tiles (inner : Bool) : ∀ (a : Int) (L : List (Int × Int)) (b : Int), InChain a L b → Tiles a (tiling inner a L b) b
+  | a, [], b, h => by
+    unfold tiling
+    by_cases hab : a < b
+    · rw [if_pos hab]; exact ⟨rfl, hab, rfl⟩
+    · rw [if_neg hab]; show a = b; have : a ≤ b := h; omega
+  | a, p :: rest, b, ⟨h1, h2, h3⟩ => by
+    unfold tiling
+    have ih := tiling_tiles inner p.2 rest b h3
+    by_cases hap : a < p.1
+    · rw [if_pos hap]; exact ⟨rfl, hap, rfl, h2, ih⟩
+    · rw [if_neg hap]
+      have : a = p.1 := by omega
+      exact ⟨this.symm, h2, ih⟩
+
+theorem Tiles.le : ∀ {a : Int} {ms : List Marked} {b : Int}, Tiles a ms b → a ≤ b
+  | _, [], _, h => by have : _ = _ := h; omega
+  | _, m :: rest, _, ⟨h1, h2, h3⟩ => by have := Tiles.le h3; omega
+
+theorem Tiles.mem : ∀ {a : Int} {ms : List Marked} {b : Int}, Tiles a ms b → ∀ m ∈ ms, a ≤ m.s ∧ m.s < m.e ∧ m.e ≤ b
+  | _, [], _, _, m, hm => by cases hm
+  | a, x :: rest, b, ⟨h1, h2, h3⟩, m, hm => by
+    rcases List.mem_cons.1 hm with rfl | hm
+    · have := Tiles.le h3; omega
+    · have := Tiles.mem h3 m hm; omega
+
+theorem Tiles.getLast : ∀ {a : Int} {ms : List Marked} {b : Int}, Tiles a ms b → ∀ m, ms.getLast? = some m → m.e = b
+  | _, [], _, _, m, hm => by simp at hm
+  | a, [x], b, ⟨h1, h2, h3⟩, m, hm => by
+    simp at hm; subst hm; exact h3
+  | a, x :: y :: rest, b, ⟨h1, h2, h3⟩, m, hm => by
+    rw [List.getLast?_cons_cons] at hm
+    exact Tiles.getLast h3 m hm
+
+theorem Tiles.sorted : ∀ {a : Int} {ms : List Marked} {b : Int}, Tiles a ms b → ms.Pairwise (fun x y => Marked.le x y = true)
+  | _, [], _, _ => List.Pairwise.nil
+  | a, x :: rest, b, ⟨h1, h2, h3⟩ => by
+    refine List.pairwise_cons.2 ⟨?_, Tiles.sorted h3⟩
+    intro y hy
+    have := Tiles.mem h3 y hy
+    rw [le_iff]; left; omega
+
+def mk (lab : Bool) (p : Int × Int) : Marked := ⟨p.1, p.2, lab⟩
+
+theorem markKeep_eq : markKeep = mk true := rfl
+theorem markDelete_eq : markDelete = mk false := rfl
+
+theorem tiling_filter_inner (inner : Bool) : ∀ (a : Int) (L : List (Int × Int)) (b : Int),
+    (tiling inner a L b).filter (fun m => m.keep == inner) = L.map (mk inner)
+  | a, [], b => by unfold tiling; split <;> simp
+  | a, p :: rest, b => by
+    unfold tiling
+    rw [List.filter_append, List.filter_cons]
+    have ih := tiling_filter_inner inner p.2 rest b
+    split <;> simp [ih, mk]
+
+theorem tiling_filter_outer (inner : Bool) : ∀ (a : Int) (L : List (Int × Int)) (b : Int),
+    (tiling inner a L b).filter (fun m => !(m.keep == inner)) = (complement a L b).map (mk (!inner))
+  | a, [], b => by unfold tiling complement; split <;> simp [mk]
+  | a, p :: rest, b => by
+    unfold tiling complement
+    rw [List.filter_append, List.filter_cons]
+    have ih := tiling_filter_outer inner p.2 rest b
+    split <;> simp [ih, mk]
+
+/-- the members of `L` labelled `inner` plus the gaps labelled `!inner` are the pieces of the tiling -/
+theorem tiling_perm (inner : Bool) (a : Int) (L : List (Int × Int)) (b : Int) :
+    (L.map (mk inner) ++ (complement a L b).map (mk (!inner))).Perm (tiling inner a L b) := by
+  rw [← tiling_filter_inner inner a L b, ← tiling_filter_outer inner a L b]
+  exact List.filter_append_perm _ _
+
+/-- **the sorted list of marked intervals is the time-ordered tiling** (keep list given) -/
+theorem sortMarked_keep (a : Int) (L : List (Int × Int)) (b : Int) (h : InChain a L b) :
+    sortMarked L (complement a L b) = tiling true a L b := by
+  unfold sortMarked
+  rw [markKeep_eq, markDelete_eq]
+  exact mergeSort_eq_of_sorted_perm _ _ (tiling_perm true a L b) (tiling_tiles true a L b h).sorted
+
+/-- … (delete list given) -/
+theorem sortMarked_delete (a : Int) (L : List (Int × Int)) (b : Int) (h : InChain a L b) :
+    sortMarked (complement a L b) L = tiling false a L b := by
+  unfold sortMarked
+  rw [markKeep_eq, markDelete_eq]
+  refine mergeSort_eq_of_sorted_perm _ _ ?_ (tiling_tiles false a L b h).sorted
+  exact List.perm_append_comm.trans (tiling_perm false a L b)
+
+/-! ## 3. `invertIntervalList` on a chain is the complement -/
+
+/-- end of the last interval of `(_, e) :: L` -/
+def lastEnd : Int → List (Int × Int) → Int
+  | e, [] => e
+  | _, p :: rest => lastEnd p.2 rest
+
+theorem getLast_lastEnd : ∀ (x : Int × Int) (L : List (Int × Int)), ∃ g, (x :: L).getLast? = some g ∧ g.2 = lastEnd x.2 L
+  | x, [] => ⟨x, by simp, rfl⟩
+  | x, p :: rest => by
+    obtain ⟨g, hg, hg2⟩ := getLast_lastEnd p rest
+    exact ⟨g, by rw [List.getLast?_cons_cons]; exact hg, hg2⟩
+
+/-- the gaps after a first element ending at `e`, with the garbage tail `(b, b+1)` when the last end is before `b` -/
+theorem gaps2_chain : ∀ (x : Int × Int) (L : List (Int × Int)) (b : Int), InChain x.2 L b →
+    C15.gaps2 (x :: L ++ (if lastEnd x.2 L < b then [(b, b)] else [])) = complement x.2 L b
+  | x, [], b, h => by
+    have hle : x.2 ≤ b := h
+    unfold complement lastEnd
+    by_cases hlt : x.2 < b
+    · rw [if_pos hlt, if_pos hlt]
+      show C15.gaps2 [x, (b, b)] = _
+      rw [C15.gaps2_cons2]
+      have : ¬ x.2 = b := by omega
+      simp [this, C15.gaps2]
+    · rw [if_neg hlt, if_neg hlt]; simp [C15.gaps2]
+  | x, p :: rest, b, ⟨h1, h2, h3⟩ => by
+    have ih := gaps2_chain p rest b h3
+    show C15.gaps2 (x :: p :: (rest ++ _)) = _
+    rw [C15.gaps2_cons2]
+    unfold complement
+    have hl : lastEnd x.2 (p :: rest) = lastEnd p.2 rest := rfl
+    rw [hl]
+    have ih' : C15.gaps2 (p :: (rest ++ if lastEnd p.2 rest < b then [(b, b)] else [])) = complement p.2 rest b := ih
+    rw [ih']
+    by_cases hxp : x.2 < p.1
+    · rw [if_pos hxp, if_neg (by omega)]
+    · rw [if_neg hxp, if_pos (by omega)]
+
+theorem chain_pairwise : ∀ (a : Int) (L : List (Int × Int)) (b : Int), InChain a L b →
+    (∀ p ∈ L, p.1 < p.2 ∧ a ≤ p.1) ∧ L.Pairwise (fun x y => x.2 ≤ y.1)
+  | _, [], _, _ => ⟨by simp, List.Pairwise.nil⟩
+  | a, p :: rest, b, ⟨h1, h2, h3⟩ => by
+    obtain ⟨ih1, ih2⟩ := chain_pairwise p.2 rest b h3
+    refine ⟨?_, List.pairwise_cons.2 ⟨fun q hq => (ih1 q hq).2, ih2⟩⟩
+    intro q hq
+    rcases List.mem_cons.1 hq with rfl | hq
+    · exact ⟨h2, h1⟩
+    · have := ih1 q hq; omega
+
+/-- **`utils.invertIntervalList` on sorted disjoint intervals inside `[a, b]` returns exactly the gaps**, in
+order: nothing for touching neighbours, nothing before an interval starting at `a` or after one ending at `b` -/
+theorem invert_eq_complement (a : Int) (L : List (Int × Int)) (b : Int) (h : InChain a L b) (hne : L ≠ []) :
+    invertIntervalList L (some a) (some b) = .ok (complement a L b) := by
+  obtain ⟨f, rest, rfl⟩ : ∃ f rest, L = f :: rest := by
+    cases L with
+    | nil => exact absurd rfl hne
+    | cons f rest => exact ⟨f, rest, rfl⟩
+  obtain ⟨hpos, hpw⟩ := chain_pairwise a _ b h
+  obtain ⟨h1, h2, h3⟩ := h
+  obtain ⟨g, hg, hg2⟩ := getLast_lastEnd f rest
+  have hsort : (f :: rest).mergeSort pairLe = f :: rest :=
+    List.mergeSort_of_pairwise (C15.pairLe_of_chain _ (fun p hp => (hpos p hp).1) hpw)
+  have hcall : invertIntervalList (f :: rest) (some a) (some b) =
+      .ok (C15.gaps2 ((if a < f.1 then [(a, a)] else []) ++ (f :: rest) ++ (if g.2 < b then [(b, b)] else []))) := by
+    unfold invertIntervalList
+    rw [if_neg]
+    · simp only [hsort, hg, List.head?_cons]
+      rfl
+    · simp only [List.any_eq_true, Bool.not_eq_true', decide_eq_false_iff_not, not_exists, not_and, Decidable.not_not]
+      exact fun p hp => (hpos p hp).1
+  rw [hcall, hg2]
+  congr 1
+  by_cases haf : a < f.1
+  · rw [if_pos haf]
+    exact gaps2_chain (a, a) (f :: rest) b ⟨h1, h2, h3⟩
+  · rw [if_neg haf]
+    have := gaps2_chain f rest b h3
+    unfold complement
+    rw [if_neg haf]
+    exact this
+
+/-- **the complement is what it should be**: its pieces have positive length, lie in `[a, b]`, are sorted and
+disjoint, and a time of `[a, b)` lies in exactly one of: an interval of `L`, a piece of the complement -/
+theorem complement_spec : ∀ (a : Int) (L : List (Int × Int)) (b : Int), InChain a L b →
+    SortedDisjoint (complement a L b) a b ∧
+    ∀ x, a ≤ x → x < b → (C15.covers2 L x ∨ C15.covers2 (complement a L b) x) ∧
+      ¬ (C15.covers2 L x ∧ C15.covers2 (complement a L b) x)
+  | a, [], b, h => by
+    have hab : a ≤ b := h
+    unfold complement
+    by_cases hlt : a < b
+    · rw [if_pos hlt]
+      refine ⟨⟨hab, by simp; omega, by simp⟩, ?_⟩
+      intro x h1 h2
+      refine ⟨Or.inr ⟨(a, b), by simp, h1, h2⟩, ?_⟩
+      rintro ⟨⟨p, hp, _⟩, _⟩; cases hp
+    · rw [if_neg hlt]
+      refine ⟨⟨hab, by simp, by simp⟩, ?_⟩
+      intro x h1 h2; omega
+  | a, p :: rest, b, ⟨h1, h2, h3⟩ => by
+    obtain ⟨⟨ihle, ihin, ihpw⟩, ihcov⟩ := complement_spec p.2 rest b h3
+    have hpb := InChain.le h3
+    obtain ⟨hrpos, _⟩ := chain_pairwise p.2 rest b h3
+    unfold complement
+    refine ⟨⟨by omega, ?_, ?_⟩, ?_⟩
+    · intro q hq
+      rcases List.mem_append.1 hq with hq | hq
+      · split at hq
+        · simp at hq; subst hq; simp only; omega
+        · cases hq
+      · have := ihin q hq; omega
+    · rw [List.pairwise_append]
+      refine ⟨by split <;> simp, ihpw, ?_⟩
+      intro x hx y hy
+      split at hx
+      · simp at hx; subst hx
+        have := ihin y hy; simp only; omega
+      · cases hx
+    · intro x hx1 hx2
+      by_cases hxp : x < p.1
+      · -- in the first gap
+        have hgap : (a, p.1) ∈ (if a < p.1 then [(a, p.1)] else []) ++ complement p.2 rest b := by
+          rw [if_pos (by omega)]; simp
+        refine ⟨Or.inr ⟨(a, p.1), hgap, hx1, hxp⟩, ?_⟩
+        rintro ⟨⟨q, hq, hq1, hq2⟩, _⟩
+        rcases List.mem_cons.1 hq with rfl | hq
+        · omega
+        · have := (hrpos q hq).2; omega
+      · by_cases hxq : x < p.2
+        · refine ⟨Or.inl ⟨p, by simp, by omega, hxq⟩, ?_⟩
+          rintro ⟨_, ⟨q, hq, hq1, hq2⟩⟩
+          rcases List.mem_append.1 hq with hq | hq
+          · split at hq
+            · simp at hq; subst hq; simp only at hq2; omega
+            · cases hq
+          · have := ihin q hq; omega
+        · obtain ⟨ih1, ih2⟩ := ihcov x (by omega) hx2
+          refine ⟨?_, ?_⟩
+          · rcases ih1 with ⟨q, hq, hq'⟩ | ⟨q, hq, hq'⟩
+            · exact Or.inl ⟨q, List.mem_cons_of_mem _ hq, hq'⟩
+            · exact Or.inr ⟨q, List.mem_append.2 (Or.inr hq), hq'⟩
+          · rintro ⟨⟨q, hq, hq1, hq2⟩, ⟨r, hr, hr1, hr2⟩⟩
+            have hr' : r ∈ complement p.2 rest b := by
+              rcases List.mem_append.1 hr with hr | hr
+              · split at hr
+                · simp at hr; subst hr; simp only at hr2; omega
+                · cases hr
+              · exact hr
+            rcases List.mem_cons.1 hq with rfl | hq
+            · omega
+            · exact ih2 ⟨⟨q, hq, hq1, hq2⟩, ⟨r, hr', hr1, hr2⟩⟩
+
+
+/-! ## 4. the sample index of a time, the window of a kept stretch -/
+
+/-- the sample index `round(rate * t)` of the time `t / den` (as a natural number; times are non-negative) -/
+def idx (den rate : Nat) (t : Int) : Nat := (samplesIn den rate t).toNat
+
+/-- the bytes of the samples `[round(rate·s), round(rate·e))` of the file -/
+def window (den : Nat) (f : WavFile) (p : Int × Int) : List UInt8 :=
+  (f.data.drop (idx den f.rate p.1 * f.width)).take ((idx den f.rate p.2 - idx den f.rate p.1) * f.width)
+
+theorem samplesIn_nonneg (den rate : Nat) (hden : 0 < den) (t : Int) (ht : 0 ≤ t) : 0 ≤ samplesIn den rate t :=
+  C16.roundHalfEven_nonneg _ _ hden (Int.mul_nonneg (by omega) ht)
+
+theorem samplesIn_mono (den rate : Nat) (hden : 0 < den) (s t : Int) (h : s ≤ t) : samplesIn den rate s ≤ samplesIn den rate t :=
+  C16.roundHalfEven_mono _ _ den hden (Int.mul_le_mul_of_nonneg_left h (by omega))
+
+theorem idx_cast (den rate : Nat) (hden : 0 < den) (t : Int) (ht : 0 ≤ t) : ((idx den rate t : Nat) : Int) = samplesIn den rate t :=
+  Int.toNat_of_nonneg (samplesIn_nonneg den rate hden t ht)
+
+theorem idx_mono (den rate : Nat) (hden : 0 < den) (s t : Int) (h : s ≤ t) : idx den rate s ≤ idx den rate t :=
+  Int.toNat_le_toNat (samplesIn_mono den rate hden s t h)
+
+theorem idx_zero (den rate : Nat) (hden : 0 < den) : idx den rate 0 = 0 := by
+  unfold idx samplesIn
+  rw [Int.mul_zero, C16.roundHalfEven_zero den hden]; rfl
+
+/-- a time on a sample position: `rate · t / den` is the integer `m` -/
+def OnGrid (den rate : Nat) (t : Int) : Prop := ∃ m : Int, (rate : Int) * t = m * den
+
+theorem samplesIn_onGrid (den rate : Nat) (hden : 0 < den) (t m : Int) (h : (rate : Int) * t = m * den) :
+    samplesIn den rate t = m := by
+  unfold samplesIn; rw [h]; exact C16.roundHalfEven_exact m den hden
+
+theorem window_length (den : Nat) (f : WavFile) (p : Int × Int)
+    (_h1 : idx den f.rate p.1 ≤ idx den f.rate p.2) (h2 : idx den f.rate p.2 ≤ f.nframes) :
+    (window den f p).length = (idx den f.rate p.2 - idx den f.rate p.1) * f.width := by
+  unfold window
+  rw [List.length_take, List.length_drop]
+  have hlen : f.nframes * f.width ≤ f.data.length := Nat.div_mul_le_self _ _
+  have hB : idx den f.rate p.2 * f.width ≤ f.data.length := Nat.le_trans (Nat.mul_le_mul_right _ h2) hlen
+  rw [Nat.sub_mul]
+  omega
+
+/-- **reading a kept stretch returns the bytes of the samples between the two nearest sample indices** —
+for every window `0 ≤ s ≤ e` whose end index is inside the file, on or off the sample grid -/
+theorem read_window (den : Nat) (hden : 0 < den) (f : WavFile) (s e : Int) (hs : 0 ≤ s) (hse : s ≤ e)
+    (he : idx den f.rate e ≤ f.nframes) :
+    readFramesAtTime f ⟨s, den⟩ ⟨e, den⟩ = .ok (window den f (s, e)) := by
+  have hA := idx_cast den f.rate hden s hs
+  have hB := idx_cast den f.rate hden e (by omega)
+  have hAB := idx_mono den f.rate hden s e hse
+  unfold readFramesAtTime window
+  show (f.readAt (samplesIn den f.rate s) (max (samplesIn den f.rate e - samplesIn den f.rate s) 0)) =
+    .ok ((f.data.drop (idx den f.rate s * f.width)).take ((idx den f.rate e - idx den f.rate s) * f.width))
+  rw [← hA, ← hB]
+  generalize idx den f.rate s = A at *
+  generalize idx den f.rate e = B at *
+  unfold WavFile.readAt
+  rw [if_neg (by omega)]
+  simp only [Int.toNat_natCast]
+  by_cases hle : B ≤ A
+  · have hm : max ((B : Int) - (A : Int)) 0 = 0 := by omega
+    have hz : B - A = 0 := by omega
+    simp [hm, hz]
+  · have hm : max ((B : Int) - (A : Int)) 0 = ((B - A : Nat) : Int) := by omega
+    have h1' : ¬ (B - A = 0) := by omega
+    have h2' : ¬ (((B - A : Nat) : Int) < 0) := by omega
+    rw [hm]
+    simp [h1', h2']
+
+/-- the window is what `Wav.getFrames` returns for the same times on the recording loaded in memory
+(for a start inside the file) -/
+theorem window_eq_getFrames (den : Nat) (hden : 0 < den) (f : WavFile) (s e : Int) (hs : 0 ≤ s) (hse : s ≤ e)
+    (hsd : s * (f.rate : Int) ≤ (f.nframes : Int) * den) (he : idx den f.rate e ≤ f.nframes) :
+    window den f (s, e) = Wav.getFrames ⟨f.width, f.rate, f.data⟩ ⟨s, den⟩ ⟨e, den⟩ := by
+  have h1 := read_window den hden f s e hs hse he
+  have h2 := C16.query_eq_wav f ⟨s, den⟩ ⟨e, den⟩ hden hden hs hsd (by show (0 : Int) ≤ e; omega)
+  rw [h1] at h2
+  exact Except.ok.inj h2
+
+/-- at sample level: the window holds the samples `[round(rate·s), round(rate·e))` of the recording -/
+theorem window_samples (den : Nat) (f : WavFile) (hw : 0 < f.width) (p : Int × Int)
+    (h1 : idx den f.rate p.1 ≤ idx den f.rate p.2) (h2 : idx den f.rate p.2 ≤ f.nframes) :
+    unpack f.width (window den f p) =
+      ((unpack f.width f.data).drop (idx den f.rate p.1)).take (idx den f.rate p.2 - idx den f.rate p.1) := by
+  have hlen : f.nframes * f.width ≤ f.data.length := Nat.div_mul_le_self _ _
+  have hA : idx den f.rate p.1 * f.width ≤ f.data.length :=
+    Nat.le_trans (Nat.mul_le_mul_right _ (Nat.le_trans h1 h2)) hlen
+  have hB : idx den f.rate p.2 * f.width ≤ f.data.length := Nat.le_trans (Nat.mul_le_mul_right _ h2) hlen
+  unfold window
+  rw [C16.unpack_take _ _ hw _ (by rw [List.length_drop, Nat.sub_mul]; omega), C16.unpack_drop _ _ hw _ hA]
+
+/-! ## 5. assembling the result -/
+
+theorem assemble_none_filter (den : Nat) (f : WavFile) : ∀ ms : List Marked,
+    assemble den f none ms = assemble den f none (ms.filter (fun m => m.keep))
+  | [] => rfl
+  | m :: rest => by
+    have ih := assemble_none_filter den f rest
+    cases hk : m.keep
+    · rw [List.filter_cons_of_neg (by simp [hk])]
+      simp only [assemble, hk, Bool.false_eq_true, if_false]
+      exact ih
+    · rw [List.filter_cons_of_pos (by simp [hk])]
+      simp only [assemble, hk, if_true, ih]
+
+/-- kept stretches inside the file are read in order -/
+theorem assemble_keeps (den : Nat) (hden : 0 < den) (f : WavFile) (gen : Option (Int → List UInt8)) :
+    ∀ L : List (Int × Int), (∀ p ∈ L, 0 ≤ p.1 ∧ p.1 ≤ p.2 ∧ idx den f.rate p.2 ≤ f.nframes) →
+      assemble den f gen (L.map (mk true)) = .ok (L.flatMap (window den f))
+  | [], _ => rfl
+  | p :: rest, h => by
+    obtain ⟨h1, h2, h3⟩ := h p (by simp)
+    have ih := assemble_keeps den hden f gen rest (fun q hq => h q (List.mem_cons_of_mem _ hq))
+    simp only [List.map_cons, assemble, mk, if_true]
+    rw [read_window den hden f p.1 p.2 h1 h2 h3, ih]
+    simp [List.flatMap_cons]
+
+/-! ## 6. `_computeKeepDeleteIntervals` on well-formed lists: the time-ordered tiling -/
+
+theorem isEmpty_false {β} (l : List β) (h : l ≠ []) : l.isEmpty = false := by
+  cases l with
+  | nil => exact absurd rfl h
+  | cons _ _ => rfl
+
+/-- **keep list**: the marked intervals are, in time order, the given intervals labelled `keep` and the gaps
+of `[start, stop]` labelled `delete`; touching intervals produce no empty piece -/
+theorem marked_keep (a b : Int) (K : List (Int × Int)) (h : InChain a K b) (hne : K ≠ []) :
+    computeKeepDelete a b K [] = .ok (tiling true a K b) := by
+  unfold computeKeepDelete
+  simp only [isEmpty_false K hne, List.isEmpty_nil, Bool.not_false, Bool.not_true, Bool.and_false, Bool.false_and,
+    Bool.false_eq_true, if_false]
+  rw [invert_eq_complement a K b h hne]
+  simp only
+  rw [sortMarked_keep a K b h]
+
+/-- **delete list**: the given intervals labelled `delete`, the gaps labelled `keep` -/
+theorem marked_delete (a b : Int) (D : List (Int × Int)) (h : InChain a D b) (hne : D ≠ []) :
+    computeKeepDelete a b [] D = .ok (tiling false a D b) := by
+  unfold computeKeepDelete
+  simp only [isEmpty_false D hne, List.isEmpty_nil, Bool.not_false, Bool.not_true, Bool.and_false,
+    Bool.and_true, Bool.false_eq_true, if_false, if_true]
+  rw [invert_eq_complement a D b h hne]
+  simp only
+  rw [sortMarked_delete a D b h]
+
+/-- no list (or two empty lists): everything is kept -/
+theorem marked_none (a b : Int) : computeKeepDelete a b [] [] = .ok [⟨a, b, true⟩] := by
+  unfold computeKeepDelete sortMarked
+  simp [markKeep]
+
+/-- the partition statement of the design: for a well-formed keep (delete) list the result tiles `[start, stop]`
+in time order with pieces of positive length, the given intervals carry the list's label, the gaps the other one -/
+theorem keepdelete_partition (a b : Int) (L : List (Int × Int)) (h : SortedDisjoint L a b) (hne : L ≠ []) :
+    (∃ ms, computeKeepDelete a b L [] = .ok ms ∧ Tiles a ms b ∧
+        ms.filter (fun m => m.keep) = L.map markKeep ∧ ms.filter (fun m => !m.keep) = (complement a L b).map markDelete) ∧
+    (∃ ms, computeKeepDelete a b [] L = .ok ms ∧ Tiles a ms b ∧
+        ms.filter (fun m => !m.keep) = L.map markDelete ∧ ms.filter (fun m => m.keep) = (complement a L b).map markKeep) := by
+  have hc := inChain_of_sortedDisjoint L a b h
+  rw [markKeep_eq, markDelete_eq]
+  refine ⟨⟨_, marked_keep a b L hc hne, tiling_tiles true a L b hc, ?_, ?_⟩,
+    ⟨_, marked_delete a b L hc hne, tiling_tiles false a L b hc, ?_, ?_⟩⟩
+  · have := tiling_filter_inner true a L b; simpa using this
+  · have := tiling_filter_outer true a L b; simpa using this
+  · have := tiling_filter_inner false a L b; simpa using this
+  · have := tiling_filter_outer false a L b; simpa using this
+
+theorem checkLast_tiles (a b : Int) (ms : List Marked) (h : Tiles a ms b) (hne : ms ≠ []) : checkLast b ms = .ok () := by
+  unfold checkLast
+  obtain ⟨m, hm⟩ : ∃ m, ms.getLast? = some m := ⟨_, List.getLast?_eq_some_getLast hne⟩
+  rw [hm]
+  have := h.getLast m hm
+  simp only
+  rw [if_neg (by omega)]
+
+theorem tiling_ne_nil (inner : Bool) (a b : Int) (L : List (Int × Int)) (hne : L ≠ []) : tiling inner a L b ≠ [] := by
+  cases L with
+  | nil => exact absurd rfl hne
+  | cons p rest => unfold tiling; split <;> simp
+
+/-! ## 7. keep list, delete list (no replacement) -/
+
+/-- what is assumed of the duration handed to `_computeKeepDeleteIntervals`: it is not negative and its sample
+index is the frame count (true of `nframes / float(frameRate)`, and of the exact quotient) -/
+def DurOk (den : Nat) (f : WavFile) (dur : Int) : Prop := 0 ≤ dur ∧ samplesIn den f.rate dur = f.nframes
+instance (den : Nat) (f : WavFile) (dur : Int) : Decidable (DurOk den f dur) := inferInstanceAs (Decidable (_ ∧ _))
+
+theorem idx_dur (den : Nat) (f : WavFile) (dur : Int) (h : DurOk den f dur) : idx den f.rate dur = f.nframes := by
+  unfold idx; rw [h.2]; rfl
+
+/-- **keep_spec** (for a non-empty keep list; for the empty list see `keep_empty_counterexample`): the result is the
+concatenation, in order, of the windows of the kept intervals -/
+theorem keep_spec_partial (den : Nat) (hden : 0 < den) (f : WavFile) (dur : Int) (hdur : DurOk den f dur)
+    (K : List (Int × Int)) (hK : SortedDisjoint K 0 dur) (hne : K ≠ []) :
+    readFramesAtTimes den f dur K [] none = .ok (K.flatMap (window den f)) := by
+  have hc := inChain_of_sortedDisjoint K 0 dur hK
+  unfold readFramesAtTimes
+  rw [marked_keep 0 dur K hc hne]
+  simp only
+  rw [checkLast_tiles 0 dur _ (tiling_tiles true 0 K dur hc) (tiling_ne_nil true 0 dur K hne)]
+  simp only
+  rw [assemble_none_filter]
+  have hf := tiling_filter_inner true 0 K dur
+  have hf' : (tiling true 0 K dur).filter (fun m => m.keep) = K.map (mk true) := by
+    rw [← hf]; congr 1; funext m; simp
+  rw [hf']
+  apply assemble_keeps den hden f none K
+  intro p hp
+  obtain ⟨h1, h2, h3⟩ := hK.2.1 p hp
+  refine ⟨h2, by omega, ?_⟩
+  rw [← idx_dur den f dur hdur]
+  exact idx_mono den f.rate hden _ _ h3
+
+/-- the model mirrors the code: an explicitly empty keep list is not "keep nothing" but "no list given" — the
+whole recording comes back (known finding C17-2) -/
+theorem keep_empty_counterexample :
+    readFramesAtTimes 8 ⟨1, 8, [1, 2, 3, 4]⟩ 4 [] [] none = .ok [1, 2, 3, 4] ∧
+    readFramesAtTimes 8 ⟨1, 8, [1, 2, 3, 4]⟩ 4 [] [] (some (generateSilence 8 8 1)) = .ok [1, 2, 3, 4] := by
+  constructor <;> (unfold readFramesAtTimes; rw [marked_none]; decide)
+
+/-- **delete_spec**: for every sorted disjoint delete list inside `[0, duration]` — empty, touching, starting at 0,
+ending at the duration, covering everything — the result is the concatenation, in order, of the windows of the
+complement (`complement_spec`: exactly the gaps) -/
+theorem delete_spec (den : Nat) (hden : 0 < den) (f : WavFile) (dur : Int) (hdur : DurOk den f dur)
+    (D : List (Int × Int)) (hD : SortedDisjoint D 0 dur) :
+    readFramesAtTimes den f dur [] D none = .ok ((complement 0 D dur).flatMap (window den f)) := by
+  have hc := inChain_of_sortedDisjoint D 0 dur hD
+  obtain ⟨hcomp, _⟩ := complement_spec 0 D dur hc
+  have hkeeps : assemble den f none ((complement 0 D dur).map (mk true)) = .ok ((complement 0 D dur).flatMap (window den f)) := by
+    apply assemble_keeps den hden f none
+    intro p hp
+    obtain ⟨h1, h2, h3⟩ := hcomp.2.1 p hp
+    refine ⟨h2, by omega, ?_⟩
+    rw [← idx_dur den f dur hdur]
+    exact idx_mono den f.rate hden _ _ h3
+  by_cases hne : D = []
+  · subst hne
+    unfold readFramesAtTimes
+    rw [marked_none]
+    simp only [checkLast, List.getLast?_singleton]
+    rw [if_neg (by omega)]
+    simp only
+    by_cases h0 : 0 < dur
+    · have : complement 0 [] dur = [(0, dur)] := by unfold complement; rw [if_pos h0]
+      rw [this] at hkeeps ⊢
+      exact hkeeps
+    · have hd0 : dur = 0 := by have := hdur.1; omega
+      subst hd0
+      have : complement 0 [] 0 = [] := by unfold complement; rw [if_neg (by omega)]
+      rw [this]
+      have := assemble_keeps den hden f none [(0, 0)] (by
+        intro p hp; simp at hp; subst hp
+        refine ⟨by simp, by simp, ?_⟩
+        show idx den f.rate 0 ≤ f.nframes
+        rw [idx_zero den f.rate hden]; omega)
+      simp only [List.map_cons, List.map_nil, mk] at this
+      rw [this]
+      simp [window, idx_zero den f.rate hden]
+  · unfold readFramesAtTimes
+    rw [marked_delete 0 dur D hc hne]
+    simp only
+    rw [checkLast_tiles 0 dur _ (tiling_tiles false 0 D dur hc) (tiling_ne_nil false 0 dur D hne)]
+    simp only
+    rw [assemble_none_filter]
+    have hf := tiling_filter_outer false 0 D dur
+    have hf' : (tiling false 0 D dur).filter (fun m => m.keep) = (complement 0 D dur).map (mk true) := by
+      have hfun : (fun m : Marked => m.keep) = (fun m => !(m.keep == false)) := by funext m; cases m.keep <;> rfl
+      rw [hfun]; exact hf
+    rw [hf']
+    exact hkeeps
+
+/-- hence: **a delete list is the keep list of its complement** (when something is left to keep) -/
+theorem delete_eq_keep_complement (den : Nat) (hden : 0 < den) (f : WavFile) (dur : Int) (hdur : DurOk den f dur)
+    (D : List (Int × Int)) (hD : SortedDisjoint D 0 dur) (hne : complement 0 D dur ≠ []) :
+    readFramesAtTimes den f dur [] D none = readFramesAtTimes den f dur (complement 0 D dur) [] none := by
+  have hc := inChain_of_sortedDisjoint D 0 dur hD
+  rw [delete_spec den hden f dur hdur D hD,
+    keep_spec_partial den hden f dur hdur _ (complement_spec 0 D dur hc).1 hne]
+
+
+/-! ## 8. replacement: original length, every kept sample at its original position -/
+
+/-- the contract of a replacement generator: for the duration `d / den` it returns `round(rate · d)` samples -/
+def GenOk (den : Nat) (f : WavFile) (gen : Int → List UInt8) : Prop :=
+  ∀ d, (gen d).length = (samplesIn den f.rate d).toNat * f.width
+
+theorem tiling_forall (P : Int → Prop) (inner : Bool) : ∀ (a : Int) (L : List (Int × Int)) (b : Int),
+    P a → P b → (∀ p ∈ L, P p.1 ∧ P p.2) → ∀ m ∈ tiling inner a L b, P m.s ∧ P m.e
+  | a, [], b, ha, hb, _, m, hm => by
+    unfold tiling at hm
+    split at hm
+    · simp at hm; subst hm; exact ⟨ha, hb⟩
+    · cases hm
+  | a, p :: rest, b, ha, hb, hL, m, hm => by
+    unfold tiling at hm
+    obtain ⟨hp1, hp2⟩ := hL p (by simp)
+    rcases List.mem_append.1 hm with hm | hm
+    · split at hm
+      · simp at hm; subst hm; exact ⟨ha, hp1⟩
+      · cases hm
+    · rcases List.mem_cons.1 hm with rfl | hm
+      · exact ⟨hp1, hp2⟩
+      · exact tiling_forall P inner p.2 rest b hp2 hb (fun q hq => hL q (List.mem_cons_of_mem _ hq)) m hm
+
+theorem onGrid_sub (den rate : Nat) (hden : 0 < den) (s e : Int) (hs0 : 0 ≤ s) (hse : s ≤ e)
+    (hs : OnGrid den rate s) (he : OnGrid den rate e) :
+    (samplesIn den rate (e - s)).toNat = idx den rate e - idx den rate s := by
+  obtain ⟨x, hx⟩ := hs
+  obtain ⟨y, hy⟩ := he
+  have hd : (rate : Int) * (e - s) = (y - x) * den := by rw [Int.mul_sub, Int.sub_mul, hx, hy]
+  have h0 := samplesIn_nonneg den rate hden s hs0
+  have h1 := samplesIn_mono den rate hden s e hse
+  unfold idx
+  rw [samplesIn_onGrid den rate hden _ _ hd, samplesIn_onGrid den rate hden _ _ hx, samplesIn_onGrid den rate hden _ _ hy] at *
+  omega
+
+/-- the general statement over a time-ordered tiling whose boundaries are sample positions: the assembled bytes
+have the length of the stretch `[a, b]`, and every kept piece sits at its own offset -/
+theorem assemble_tiles (den : Nat) (hden : 0 < den) (f : WavFile) (gen : Int → List UInt8) (hgen : GenOk den f gen) :
+    ∀ (ms : List Marked) (a b : Int), Tiles a ms b → 0 ≤ a → idx den f.rate b ≤ f.nframes →
+      (∀ m ∈ ms, OnGrid den f.rate m.s ∧ OnGrid den f.rate m.e) →
+      ∃ out, assemble den f (some gen) ms = .ok out ∧
+        out.length = (idx den f.rate b - idx den f.rate a) * f.width ∧
+        ∀ m ∈ ms, m.keep = true →
+          (out.drop ((idx den f.rate m.s - idx den f.rate a) * f.width)).take
+              ((idx den f.rate m.e - idx den f.rate m.s) * f.width) = window den f (m.s, m.e)
+  | [], a, b, h, _, _, _ => by
+    have hab : a = b := h
+    subst hab
+    exact ⟨[], rfl, by simp, by intro m hm; cases hm⟩
+  | ⟨s0, e0, k0⟩ :: rest, a, b, ⟨hs, hlt, hrest⟩, ha, hb, hgrid => by
+    simp only at hs hlt hrest
+    subst hs
+    have heb : e0 ≤ b := Tiles.le hrest
+    obtain ⟨out', e1, len', pos'⟩ := assemble_tiles den hden f gen hgen rest e0 b hrest (by omega) hb
+      (fun m hm => hgrid m (List.mem_cons_of_mem _ hm))
+    have hIae : idx den f.rate s0 ≤ idx den f.rate e0 := idx_mono den f.rate hden _ _ (by omega)
+    have hIeb : idx den f.rate e0 ≤ idx den f.rate b := idx_mono den f.rate hden _ _ heb
+    -- the first piece and its length
+    obtain ⟨piece, hpiece, hpl, hpk⟩ : ∃ piece, assemble den f (some gen) (⟨s0, e0, k0⟩ :: rest) = .ok (piece ++ out') ∧
+        piece.length = (idx den f.rate e0 - idx den f.rate s0) * f.width ∧
+        (k0 = true → piece = window den f (s0, e0)) := by
+      cases k0 with
+      | true =>
+        refine ⟨window den f (s0, e0), ?_, window_length den f (s0, e0) hIae (Nat.le_trans hIeb hb), fun _ => rfl⟩
+        simp only [assemble, if_true]
+        rw [read_window den hden f s0 e0 ha (by omega) (Nat.le_trans hIeb hb), e1]
+      | false =>
+        refine ⟨gen (e0 - s0), ?_, ?_, fun h => by cases h⟩
+        · simp only [assemble, Bool.false_eq_true, if_false, e1]
+        · obtain ⟨g1, g2⟩ := hgrid ⟨s0, e0, false⟩ (by simp)
+          rw [hgen, onGrid_sub den f.rate hden s0 e0 ha (by omega) g1 g2]
+    refine ⟨piece ++ out', hpiece, ?_, ?_⟩
+    · rw [List.length_append, hpl, len', ← Nat.add_mul]
+      congr 1; omega
+    · intro m hm hk
+      rcases List.mem_cons.1 hm with rfl | hm
+      · simp only [Nat.sub_self, Nat.zero_mul, List.drop_zero]
+        rw [List.take_left' hpl]
+        exact hpk hk
+      · have hm' := Tiles.mem hrest m hm
+        have hIem : idx den f.rate e0 ≤ idx den f.rate m.s := idx_mono den f.rate hden _ _ hm'.1
+        have hsplit : (idx den f.rate m.s - idx den f.rate s0) * f.width =
+            piece.length + (idx den f.rate m.s - idx den f.rate e0) * f.width := by
+          rw [hpl, ← Nat.add_mul]; congr 1; omega
+        rw [hsplit, List.drop_length_add_append]
+        exact pos' m hm hk
+
+theorem onGrid_zero (den rate : Nat) : OnGrid den rate 0 := ⟨0, by simp⟩
+
+/-- **replacement, keep list**: with a generator that returns `round(rate · d)` samples and all boundaries on sample
+positions, the result has the original length (`nframes` whole samples) and the bytes of every kept interval are
+the recording's bytes at the same offset — every kept sample is at its original position -/
+theorem replace_keep (den : Nat) (hden : 0 < den) (f : WavFile) (dur : Int) (hdur : DurOk den f dur)
+    (gen : Int → List UInt8) (hgen : GenOk den f gen)
+    (K : List (Int × Int)) (hK : SortedDisjoint K 0 dur) (hne : K ≠ [])
+    (hgrid : ∀ p ∈ K, OnGrid den f.rate p.1 ∧ OnGrid den f.rate p.2) (hgd : OnGrid den f.rate dur) :
+    ∃ out, readFramesAtTimes den f dur K [] (some gen) = .ok out ∧
+      out.length = f.nframes * f.width ∧
+      ∀ p ∈ K, (out.drop (idx den f.rate p.1 * f.width)).take ((idx den f.rate p.2 - idx den f.rate p.1) * f.width) =
+        (f.data.drop (idx den f.rate p.1 * f.width)).take ((idx den f.rate p.2 - idx den f.rate p.1) * f.width) := by
+  have hc := inChain_of_sortedDisjoint K 0 dur hK
+  have hT := tiling_tiles true 0 K dur hc
+  obtain ⟨out, e1, len, pos⟩ := assemble_tiles den hden f gen hgen _ 0 dur hT (by omega)
+    (by rw [idx_dur den f dur hdur]; omega)
+    (tiling_forall (OnGrid den f.rate) true 0 K dur (onGrid_zero den f.rate) hgd hgrid)
+  refine ⟨out, ?_, ?_, ?_⟩
+  · unfold readFramesAtTimes
+    rw [marked_keep 0 dur K hc hne]
+    simp only
+    rw [checkLast_tiles 0 dur _ hT (tiling_ne_nil true 0 dur K hne)]
+    exact e1
+  · rw [len, idx_dur den f dur hdur, idx_zero den f.rate hden]; rfl
+  · intro p hp
+    have hmem : mk true p ∈ tiling true 0 K dur := by
+      have : mk true p ∈ (tiling true 0 K dur).filter (fun m => m.keep == true) := by
+        rw [tiling_filter_inner]; exact List.mem_map_of_mem hp
+      exact (List.mem_filter.1 this).1
+    have := pos (mk true p) hmem rfl
+    simpa [mk, idx_zero den f.rate hden, window] using this
+
+/-- **replacement, delete list**: the same for the kept complement of a delete list (empty, touching, at the edges) -/
+theorem replace_delete (den : Nat) (hden : 0 < den) (f : WavFile) (dur : Int) (hdur : DurOk den f dur)
+    (gen : Int → List UInt8) (hgen : GenOk den f gen)
+    (D : List (Int × Int)) (hD : SortedDisjoint D 0 dur) (hne : D ≠ [])
+    (hgrid : ∀ p ∈ D, OnGrid den f.rate p.1 ∧ OnGrid den f.rate p.2) (hgd : OnGrid den f.rate dur) :
+    ∃ out, readFramesAtTimes den f dur [] D (some gen) = .ok out ∧
+      out.length = f.nframes * f.width ∧
+      ∀ p ∈ complement 0 D dur,
+        (out.drop (idx den f.rate p.1 * f.width)).take ((idx den f.rate p.2 - idx den f.rate p.1) * f.width) =
+        (f.data.drop (idx den f.rate p.1 * f.width)).take ((idx den f.rate p.2 - idx den f.rate p.1) * f.width) := by
+  have hc := inChain_of_sortedDisjoint D 0 dur hD
+  have hT := tiling_tiles false 0 D dur hc
+  obtain ⟨out, e1, len, pos⟩ := assemble_tiles den hden f gen hgen _ 0 dur hT (by omega)
+    (by rw [idx_dur den f dur hdur]; omega)
+    (tiling_forall (OnGrid den f.rate) false 0 D dur (onGrid_zero den f.rate) hgd hgrid)
+  refine ⟨out, ?_, ?_, ?_⟩
+  · unfold readFramesAtTimes
+    rw [marked_delete 0 dur D hc hne]
+    simp only
+    rw [checkLast_tiles 0 dur _ hT (tiling_ne_nil false 0 dur D hne)]
+    exact e1
+  · rw [len, idx_dur den f dur hdur, idx_zero den f.rate hden]; rfl
+  · intro p hp
+    have hmem : mk true p ∈ tiling false 0 D dur := by
+      have : mk true p ∈ (tiling false 0 D dur).filter (fun m => !(m.keep == false)) := by
+        rw [tiling_filter_outer]; exact List.mem_map_of_mem hp
+      exact (List.mem_filter.1 this).1
+    have := pos (mk true p) hmem rfl
+    simpa [mk, idx_zero den f.rate hden, window] using this
+
+
+/-! ## 9. the documented rejections -/
+
+/-- **both lists given: `ArgumentError`** (whatever the lists, the recording and the generator) -/
+theorem both_lists_rejected (den : Nat) (f : WavFile) (dur : Int) (K D : List (Int × Int))
+    (gen : Option (Int → List UInt8)) (hK : K ≠ []) (hD : D ≠ []) :
+    readFramesAtTimes den f dur K D gen = .error (.praat .ArgumentError) := by
+  unfold readFramesAtTimes computeKeepDelete
+  simp [isEmpty_false K hK, isEmpty_false D hD]
+
+theorem invert_call (a b : Int) (f : Int × Int) (rest : List (Int × Int))
+    (hpos : ∀ p ∈ f :: rest, p.1 < p.2) (hpw : (f :: rest).Pairwise (fun x y => x.2 ≤ y.1))
+    (g : Int × Int) (hg : (f :: rest).getLast? = some g) :
+    invertIntervalList (f :: rest) (some a) (some b) =
+      .ok (C15.gaps2 ((if a < f.1 then [(a, a)] else []) ++ (f :: rest) ++ (if g.2 < b then [(b, b)] else []))) := by
+  have hsort : (f :: rest).mergeSort pairLe = f :: rest :=
+    List.mergeSort_of_pairwise (C15.pairLe_of_chain _ hpos hpw)
+  unfold invertIntervalList
+  rw [if_neg]
+  · simp only [hsort, hg, List.head?_cons]
+    rfl
+  · simp only [List.any_eq_true, Bool.not_eq_true', decide_eq_false_iff_not, not_exists, not_and, Decidable.not_not]
+    exact hpos
+
+theorem pairwise_getLast {β} (R : β → β → Prop) : ∀ (l : List β) (z : β), l.Pairwise R → l.getLast? = some z →
+    ∀ x ∈ l, x = z ∨ R x z
+  | [], _, _, h, _, _ => by simp at h
+  | [y], z, _, h, x, hx => by simp at h hx; left; rw [hx, h]
+  | y :: y' :: rest, z, hp, h, x, hx => by
+    rw [List.getLast?_cons_cons] at h
+    obtain ⟨h1, h2⟩ := List.pairwise_cons.1 hp
+    have hz : z ∈ y' :: rest := List.mem_of_getLast? h
+    rcases List.mem_cons.1 hx with rfl | hx
+    · right; exact h1 z hz
+    · exact pairwise_getLast R (y' :: rest) z h2 h x hx
+
+/-- in the sorted marked list the interval with the latest start comes last -/
+theorem last_of_sorted (lab : Bool) (K G : List (Int × Int)) (g : Int × Int) (S : List Marked)
+    (hS : S.Perm (K.map (mk lab) ++ G.map (mk (!lab)))) (hsorted : S.Pairwise (fun x y => Marked.le x y = true))
+    (hg : g ∈ K) (hmax : ∀ q ∈ K, q.1 ≤ g.1 ∧ q.2 ≤ g.2) (hG : ∀ n ∈ G, n.1 < g.1) :
+    S.getLast? = some (mk lab g) := by
+  have hgS : mk lab g ∈ S := hS.mem_iff.2 (List.mem_append.2 (Or.inl (List.mem_map_of_mem hg)))
+  have hne : S ≠ [] := List.ne_nil_of_mem hgS
+  obtain ⟨z, hz⟩ : ∃ z, S.getLast? = some z := ⟨_, List.getLast?_eq_some_getLast hne⟩
+  rw [hz]; congr 1
+  rcases pairwise_getLast _ S z hsorted hz (mk lab g) hgS with h | h
+  · exact h.symm
+  · rw [le_iff] at h
+    have hzS : z ∈ K.map (mk lab) ++ G.map (mk (!lab)) := hS.mem_iff.1 (List.mem_of_getLast? hz)
+    rcases List.mem_append.1 hzS with hzK | hzG
+    · obtain ⟨q, hq, rfl⟩ := List.mem_map.1 hzK
+      obtain ⟨m1, m2⟩ := hmax q hq
+      simp only [mk] at h
+      have h1 : q.1 = g.1 := by omega
+      have h2 : q.2 = g.2 := by omega
+      have : q = g := Prod.ext h1 h2
+      rw [this]
+    · obtain ⟨n, hn, rfl⟩ := List.mem_map.1 hzG
+      have := hG n hn
+      simp only [mk] at h
+      omega
+
+/-- the marked list of a sorted disjoint list (either role) ends with the list's last interval -/
+theorem marked_last (a b : Int) (L : List (Int × Int)) (hne : L ≠ []) (hpos : ∀ p ∈ L, p.1 < p.2)
+    (hpw : L.Pairwise (fun x y => x.2 ≤ y.1)) (g : Int × Int) (hg : L.getLast? = some g) (hgb : b < g.2) :
+    (∃ ms, computeKeepDelete a b L [] = .ok ms ∧ ms.getLast? = some (mk true g)) ∧
+    (∃ ms, computeKeepDelete a b [] L = .ok ms ∧ ms.getLast? = some (mk false g)) := by
+  obtain ⟨f, rest, rfl⟩ : ∃ f rest, L = f :: rest := by
+    cases L with
+    | nil => exact absurd rfl hne
+    | cons f rest => exact ⟨f, rest, rfl⟩
+  have hpw' : ∀ p ∈ f :: rest, p.1 ≤ p.2 := fun p hp => Int.le_of_lt (hpos p hp)
+  obtain ⟨hgm, hglast⟩ := C15.plast _ g hpw' hpw hg
+  have hfirst := C15.pfirst hpw' hpw
+  have hcall := invert_call a b f rest hpos hpw g hg
+  rw [if_neg (show ¬ g.2 < b by omega), List.append_nil] at hcall
+  -- the gaps all start before the last interval
+  have hG : ∀ n ∈ C15.gaps2 ((if a < f.1 then [(a, a)] else []) ++ (f :: rest)), n.1 < g.1 := by
+    intro n hn
+    have hLp : ∀ x ∈ (if a < f.1 then [(a, a)] else []) ++ (f :: rest), x.1 ≤ x.2 := by
+      intro x hx
+      rcases List.mem_append.1 hx with hx | hx
+      · split at hx
+        · simp at hx; subst hx; exact Int.le_refl _
+        · cases hx
+      · exact hpw' x hx
+    have hLd : C15.Chain2 ((if a < f.1 then [(a, a)] else []) ++ (f :: rest)) := by
+      unfold C15.Chain2
+      rw [List.pairwise_append]
+      refine ⟨by split <;> simp, hpw, ?_⟩
+      intro x hx y hy
+      split at hx
+      · simp at hx; subst hx
+        have := (hfirst y hy).1
+        show a ≤ y.1
+        omega
+      · cases hx
+    obtain ⟨h1, _, ⟨b', hb', hb'e⟩, _⟩ := (C15.gaps2_spec _ hLp hLd).1 n hn
+    rcases List.mem_append.1 hb' with hb' | hb'
+    · split at hb'
+      · simp at hb'; subst hb'
+        have := (hglast f (by simp)).1
+        simp only at hb'e
+        omega
+      · cases hb'
+    · have := (hglast b' hb').1
+      omega
+  have hK : f :: rest ≠ [] := by simp
+  refine ⟨⟨sortMarked (f :: rest) (C15.gaps2 ((if a < f.1 then [(a, a)] else []) ++ (f :: rest))), ?_, ?_⟩,
+    ⟨sortMarked (C15.gaps2 ((if a < f.1 then [(a, a)] else []) ++ (f :: rest))) (f :: rest), ?_, ?_⟩⟩
+  · unfold computeKeepDelete
+    simp only [isEmpty_false _ hK, List.isEmpty_nil, Bool.not_false, Bool.not_true, Bool.and_false, Bool.false_and,
+      Bool.false_eq_true, if_false]
+    rw [hcall]
+  · unfold sortMarked
+    rw [markKeep_eq, markDelete_eq]
+    exact last_of_sorted true _ _ g _ (List.mergeSort_perm _ _)
+      (List.pairwise_mergeSort (fun a b c => le_trans a b c) le_total _) hgm hglast hG
+  · unfold computeKeepDelete
+    simp only [isEmpty_false _ hK, List.isEmpty_nil, Bool.not_false, Bool.not_true, Bool.and_false,
+      Bool.and_true, Bool.false_eq_true, if_false, if_true]
+    rw [hcall]
+  · unfold sortMarked
+    rw [markKeep_eq, markDelete_eq]
+    exact last_of_sorted false _ _ g _ ((List.mergeSort_perm _ _).trans List.perm_append_comm)
+      (List.pairwise_mergeSort (fun a b c => le_trans a b c) le_total _) hgm hglast hG
+
+/-- **a time beyond the duration: `ArgumentError`** — for every sorted disjoint keep or delete list one of whose
+intervals ends after the duration, with or without replacement.  (Partial: "times beyond the recording" also
+covers times before 0, which are *not* rejected — `negative_time_counterexample`.) -/
+theorem out_of_range_rejected_partial (den : Nat) (f : WavFile) (dur : Int) (gen : Option (Int → List UInt8))
+    (L : List (Int × Int)) (hpos : ∀ p ∈ L, p.1 < p.2) (hpw : L.Pairwise (fun x y => x.2 ≤ y.1))
+    (hout : ∃ p ∈ L, dur < p.2) :
+    readFramesAtTimes den f dur L [] gen = .error (.praat .ArgumentError) ∧
+    readFramesAtTimes den f dur [] L gen = .error (.praat .ArgumentError) := by
+  obtain ⟨p, hp, hpd⟩ := hout
+  have hne : L ≠ [] := List.ne_nil_of_mem hp
+  obtain ⟨g, hg⟩ : ∃ g, L.getLast? = some g := ⟨_, List.getLast?_eq_some_getLast hne⟩
+  have hpw' : ∀ p ∈ L, p.1 ≤ p.2 := fun p hp => Int.le_of_lt (hpos p hp)
+  have hgd : dur < g.2 := by have := ((C15.plast L g hpw' hpw hg).2 p hp).2; omega
+  obtain ⟨⟨ms, e1, l1⟩, ⟨ms', e2, l2⟩⟩ := marked_last 0 dur L hne hpos hpw g hg hgd
+  constructor
+  · unfold readFramesAtTimes
+    rw [e1]; simp only [checkLast, l1, mk]
+    rw [if_pos hgd]
+  · unfold readFramesAtTimes
+    rw [e2]; simp only [checkLast, l2, mk]
+    rw [if_pos hgd]
+
+/-- the model mirrors the code: a delete interval that starts before time 0 is accepted; with a replacement
+generator the result (16 samples) is longer than the recording (8 samples).  A keep interval whose negative start
+rounds to sample 0 is accepted as well.  (Known finding C17-1.) -/
+theorem negative_time_counterexample :
+    readFramesAtTimes 8 ⟨1, 8, [1, 2, 3, 4, 5, 6, 7, 8]⟩ 8 [] [(-8, 4)] none = .ok [5, 6, 7, 8] ∧
+    (readFramesAtTimes 8 ⟨1, 8, [1, 2, 3, 4, 5, 6, 7, 8]⟩ 8 [] [(-8, 4)] (some (generateSilence 8 8 1))).map List.length = .ok 16 ∧
+    readFramesAtTimes 64 ⟨1, 8, [1, 2, 3, 4, 5, 6, 7, 8]⟩ 64 [(-1, 64)] [] none = .ok [1, 2, 3, 4, 5, 6, 7, 8] := by
+  have hinv : invertIntervalList [((-8 : Int), (4 : Int))] (some 0) (some 8) = .ok [(4, 8)] := by
+    have := invert_call 0 8 (-8, 4) [] (by simp) (by simp) (-8, 4) rfl
+    rw [this]; decide
+  have hinv2 : invertIntervalList [((-1 : Int), (64 : Int))] (some 0) (some 64) = .ok [] := by
+    have := invert_call 0 64 (-1, 64) [] (by simp) (by simp) (-1, 64) rfl
+    rw [this]; decide
+  have hsort : sortMarked [(4, 8)] [(-8, 4)] = [⟨-8, 4, false⟩, ⟨4, 8, true⟩] := by
+    unfold sortMarked
+    apply mergeSort_eq_of_sorted_perm
+    · exact List.Perm.swap _ _ _
+    · decide
+  have hm : computeKeepDelete 0 8 [] [(-8, 4)] = .ok [⟨-8, 4, false⟩, ⟨4, 8, true⟩] := by
+    unfold computeKeepDelete
+    simp only [List.isEmpty_nil, List.isEmpty_cons, Bool.not_false, Bool.not_true, Bool.and_false,
+      Bool.and_true, Bool.false_eq_true, if_false, if_true]
+    rw [hinv]; simp only; rw [hsort]
+  have hm2 : computeKeepDelete 0 64 [(-1, 64)] [] = .ok [⟨-1, 64, true⟩] := by
+    unfold computeKeepDelete
+    simp only [List.isEmpty_nil, List.isEmpty_cons, Bool.not_false, Bool.not_true, Bool.and_false, Bool.false_and,
+      Bool.false_eq_true, if_false]
+    rw [hinv2]; simp only
+    unfold sortMarked; simp [markKeep]
+  refine ⟨?_, ?_, ?_⟩
+  · unfold readFramesAtTimes; rw [hm]; decide
+  · unfold readFramesAtTimes; rw [hm]; decide
+  · unfold readFramesAtTimes; rw [hm2]; decide
+
+/-! ## 10. generated audio has `round(rate × duration)` samples -/
+
+/-- `samplesIn` is Python's `round(rate * d)`: the nearest integer, ties to the even one -/
+theorem samplesIn_spec (den rate : Nat) (hden : 0 < den) (d : Int) :
+    C16.IsRoundHalfEven ((rate : Int) * d) den (samplesIn den rate d) :=
+  C16.roundHalfEven_spec _ _ hden
+
+/-- **silence has `round(rate × duration)` samples** (none for a negative duration) -/
+theorem silence_length (den rate width : Nat) (d : Int) :
+    (generateSilence den rate width d).length = (samplesIn den rate d).toNat * width :=
+  List.length_replicate
+
+/-- … all of them zero -/
+theorem silence_zero (den rate width : Nat) (d : Int) : ∀ b ∈ generateSilence den rate width d, b = 0 :=
+  fun _ hb => List.eq_of_mem_replicate hb
+
+/-- … whole samples that decode to zeros -/
+theorem silence_samples (den rate width : Nat) (hw : 0 < width) (d : Int) (x : Int)
+    (hx : x ∈ unpack width (generateSilence den rate width d)) : InRange width x :=
+  C16.unpackN_inRange width hw _ _ (by rw [silence_length]; exact Nat.div_mul_le_self _ _) x hx
+
+/-- `generateSilence` satisfies the generator contract of `replace_keep` / `replace_delete` -/
+theorem silence_genOk (den : Nat) (f : WavFile) : GenOk den f (generateSilence den f.rate f.width) :=
+  fun d => silence_length den f.rate f.width d
+
+theorem sineCount_eq (den rate : Nat) (d : Int) : sineCount den rate d = (samplesIn den rate d).toNat := by
+  unfold sineCount samplesIn; rw [Int.mul_comm]
+
+/-- **a generated sine wave has `round(rate × duration)` samples**, whatever the sample values `math.sin` yields
+(when they fit the sample width; otherwise `struct.error`) -/
+theorem sine_length (den rate width : Nat) (vals : Nat → Int) (d : Int) (bs : List UInt8)
+    (h : generateSineWave den rate width vals d = .ok bs) :
+    bs.length = (samplesIn den rate d).toNat * width := by
+  unfold generateSineWave convertToBytes at h
+  split at h
+  · cases h
+  · split at h
+    · cases h
+      rw [C16.pack_length, List.length_map, List.length_range, sineCount_eq, Nat.mul_comm]
+    · cases h
+
+/-! ## 11. `extractSubwav` -/
+
+/-- **extractSubwav writes the source's parameters and exactly the window of the source** -/
+theorem extract_spec (den : Nat) (hden : 0 < den) (f : WavFile) (s e : Int) (hs : 0 ≤ s) (hse : s ≤ e)
+    (he : idx den f.rate e ≤ f.nframes) :
+    extractSubwav f ⟨s, den⟩ ⟨e, den⟩ = .ok ⟨f.width, f.rate, window den f (s, e)⟩ := by
+  unfold extractSubwav QueryWav.getFrames
+  simp only [Option.getD_some]
+  rw [read_window den hden f s e hs hse he]
+  rfl
+
+/-- the file-backed path (QueryWav) and the in-memory path (`Wav.getSubwav`) extract the same frames -/
+theorem extract_eq_getSubwav (f : WavFile) (s e : QTime) (hds : 0 < s.den) (hde : 0 < e.den)
+    (hs0 : 0 ≤ s.num) (hs1 : s ≤ f.duration) (he0 : 0 ≤ e.num) :
+    extractSubwav f s e = .ok ⟨f.width, f.rate, (Wav.getSubwav ⟨f.width, f.rate, f.data⟩ s e).frames⟩ := by
+  unfold extractSubwav QueryWav.getFrames
+  simp only [Option.getD_some]
+  rw [C16.query_eq_wav f s e hds hde hs0 hs1 he0]
+  rfl
+
+
+/-! ## 12. `splitAudioOnTier`: one output per entry, names, frames, cropped TextGrids -/
+
+section split
+set_option linter.unusedSectionVars false
+variable {α : Type} [LT α] [LE α] [DecidableLT α] [DecidableLE α] [BEq α] [Add α] [Sub α] [Tm α]
+
+/-- what the entry loop produces for the entries `es`, the first of which has the number `i` -/
+def SplitRel (toQ : α → QTime) (f : WavFile) (g : Tg α) (stem : String) (flag : TgFlag) (style : NameStyle)
+    (noPartial : Bool) (n : Nat) : Nat → List (Iv α) → List (SplitOut α) → Prop
+  | _, [], [] => True
+  | i, iv :: es, o :: outs =>
+    (o.name = outputName stem style n i iv.l ∧
+      QueryWav.getFrames f (some (toQ iv.s)) (some (toQ iv.e)) = .ok o.wav.data ∧
+      o.wav.width = f.width ∧ o.wav.rate = f.rate ∧
+      splitTg g iv.s iv.e noPartial flag = .ok o.tg) ∧
+    SplitRel toQ f g stem flag style noPartial n (i + 1) es outs
+  | _, _, _ => False
+
+theorem splitLoop_rel (toQ : α → QTime) (f : WavFile) (g : Tg α) (stem : String) (flag : TgFlag) (style : NameStyle)
+    (noPartial : Bool) (n : Nat) : ∀ (es : List (Iv α)) (i : Nat) (outs : List (SplitOut α)),
+      splitLoop toQ f g stem flag style noPartial n i es = .ok outs →
+      SplitRel toQ f g stem flag style noPartial n i es outs
+  | [], i, outs, h => by
+    simp only [splitLoop] at h
+    cases h; trivial
+  | iv :: rest, i, outs, h => by
+    simp only [splitLoop] at h
+    split at h
+    · cases h
+    · rename_i fr hfr
+      split at h
+      · cases h
+      · rename_i sub hsub
+        split at h
+        · cases h
+        · rename_i outs' houts
+          cases h
+          exact ⟨⟨rfl, hfr, rfl, rfl, hsub⟩, splitLoop_rel toQ f g stem flag style noPartial n rest (i + 1) outs' houts⟩
+
+theorem SplitRel.length {toQ : α → QTime} {f : WavFile} {g : Tg α} {stem : String} {flag : TgFlag} {style : NameStyle}
+    {noPartial : Bool} {n : Nat} : ∀ {i : Nat} {es : List (Iv α)} {outs : List (SplitOut α)},
+      SplitRel toQ f g stem flag style noPartial n i es outs → outs.length = es.length
+  | _, [], [], _ => rfl
+  | _, _ :: _, _ :: _, ⟨_, h⟩ => by simp [SplitRel.length h]
+  | _, [], _ :: _, h => by cases h
+  | _, _ :: _, [], h => by cases h
+
+/-- the names the documented rule gives to the entries `es`, numbered from `i` -/
+def namesFrom (stem : String) (style : NameStyle) (n : Nat) : Nat → List (Iv α) → List String
+  | _, [] => []
+  | i, iv :: rest => outputName stem style n i iv.l :: namesFrom stem style n (i + 1) rest
+
+theorem SplitRel.names {toQ : α → QTime} {f : WavFile} {g : Tg α} {stem : String} {flag : TgFlag} {style : NameStyle}
+    {noPartial : Bool} {n : Nat} : ∀ {i : Nat} {es : List (Iv α)} {outs : List (SplitOut α)},
+      SplitRel toQ f g stem flag style noPartial n i es outs → outs.map (·.name) = namesFrom stem style n i es
+  | _, [], [], _ => rfl
+  | _, _ :: _, _ :: _, ⟨h1, h⟩ => by simp [namesFrom, h1.1, SplitRel.names h]
+  | _, [], _ :: _, h => by cases h
+  | _, _ :: _, [], h => by cases h
+
+/-- **one output per entry**: `splitAudioOnTier` succeeds only on a non-empty list of (non-silence) entries of an
+interval tier and then produces exactly one output per entry, in order, named by the documented rule -/
+theorem split_one_per_entry (toQ : α → QTime) (f : WavFile) (g : Tg α) (tierName stem : String) (flag : TgFlag)
+    (style : NameStyle) (noPartial : Bool) (silence : Option String) (outs : List (SplitOut α))
+    (h : splitAudioOnTier toQ f g tierName stem flag style noPartial silence = .ok outs) :
+    ∃ es, splitEntries g tierName silence = .ok es ∧ es ≠ [] ∧
+      SplitRel toQ f g stem flag style noPartial es.length 0 es outs ∧
+      outs.length = es.length ∧ outs.map (·.name) = namesFrom stem style es.length 0 es := by
+  unfold splitAudioOnTier at h
+  cases hes : splitEntries g tierName silence with
+  | error e => rw [hes] at h; cases h
+  | ok es =>
+    rw [hes] at h
+    cases es with
+    | nil => cases h
+    | cons iv rest =>
+      have hr := splitLoop_rel toQ f g stem flag style noPartial (iv :: rest).length (iv :: rest) 0 outs h
+      exact ⟨iv :: rest, rfl, by simp, hr, hr.length, hr.names⟩
+
+/-- no entry (an empty tier, or nothing but silence): the built-in `ValueError` of `math.log10(0)` (known finding C17-4) -/
+theorem split_no_entries (toQ : α → QTime) (f : WavFile) (g : Tg α) (tierName stem : String) (flag : TgFlag)
+    (style : NameStyle) (noPartial : Bool) (silence : Option String) (h : splitEntries g tierName silence = .ok []) :
+    splitAudioOnTier toQ f g tierName stem flag style noPartial silence = .error (.praat .ValueError) := by
+  unfold splitAudioOnTier; rw [h]
+
+end split
+
+/-! ### names -/
+
+theorem padLeft_value (k i : Nat) : Nat.ofDigitChars 10 (padLeft k (toString i)).toList 0 = i := by
+  unfold padLeft
+  rw [String.toList_append, String.toList_ofList, Nat.ofDigitChars_append, Nat.ofDigitChars_replicate_zero,
+    Nat.mul_zero, Nat.toString_eq_repr, Nat.toList_repr, Nat.ofDigitChars_ten_toDigits]
+
+theorem padLeft_inj (k i j : Nat) (h : padLeft k (toString i) = padLeft k (toString j)) : i = j := by
+  rw [← padLeft_value k i, ← padLeft_value k j, h]
+
+theorem padLeft_length (k i : Nat) (h : (toString i).length ≤ k) : (padLeft k (toString i)).length = k := by
+  unfold padLeft
+  rw [String.length_append, String.length_ofList, List.length_replicate]
+  omega
+
+theorem repr_length_le (n i : Nat) (h : i < n) : (toString i).length ≤ (toString n).length := by
+  rw [Nat.toString_eq_repr, Nat.toString_eq_repr]
+  have hn : n < 10 ^ n.repr.length := (Nat.length_repr_le_iff Nat.length_repr_pos).1 (Nat.le_refl _)
+  exact (Nat.length_repr_le_iff Nat.length_repr_pos).2 (by omega)
+
+theorem string_append_inj {a b c d : String} (h : a ++ b = c ++ d) (hl : a.length = c.length) : a = c ∧ b = d := by
+  have h' := congrArg String.toList h
+  rw [String.toList_append, String.toList_append] at h'
+  have hl' : a.toList.length = c.toList.length := by rw [String.length_toList, String.length_toList]; exact hl
+  obtain ⟨h1, h2⟩ := List.append_inj h' hl'
+  exact ⟨String.toList_inj.1 h1, String.toList_inj.1 h2⟩
+
+/-- numbered names of different entries differ (the number is padded to the width of the entry count) -/
+theorem indexedName_inj (stem : String) (n i j : Nat) (h : indexedName stem n i = indexedName stem n j) : i = j := by
+  unfold indexedName at h
+  have := (string_append_inj h rfl).2
+  exact padLeft_inj _ i j this
+
+theorem indexedName_length (stem : String) (n i : Nat) (h : i < n) :
+    (indexedName stem n i).length = stem.length + 1 + (toString n).length := by
+  unfold indexedName
+  rw [String.length_append, String.length_append, padLeft_length _ _ (repr_length_le n i h)]
+  rfl
+
+/-- with `nameStyle` None or `'append'` the name determines the entry number -/
+theorem outputName_inj (stem : String) (style : NameStyle) (hs : style = .default ∨ style = .append) (n i j : Nat)
+    (hi : i < n) (hj : j < n) (l l' : String) (h : outputName stem style n i l = outputName stem style n j l') : i = j := by
+  rcases hs with rfl | rfl
+  · exact indexedName_inj stem n i j h
+  · unfold outputName at h
+    simp only at h
+    rw [String.append_assoc, String.append_assoc] at h
+    have := (string_append_inj h (by rw [indexedName_length stem n i hi, indexedName_length stem n j hj])).1
+    exact indexedName_inj stem n i j this
+
+theorem namesFrom_mem {α} (stem : String) (style : NameStyle) (n : Nat) : ∀ (es : List (Iv α)) (i : Nat) (x : String),
+    x ∈ namesFrom stem style n i es → ∃ j l, i ≤ j ∧ j < i + es.length ∧ x = outputName stem style n j l
+  | [], _, x, h => by cases h
+  | iv :: rest, i, x, h => by
+    simp only [namesFrom, List.mem_cons] at h
+    rcases h with rfl | h
+    · exact ⟨i, iv.l, Nat.le_refl _, by simp, rfl⟩
+    · obtain ⟨j, l, h1, h2, h3⟩ := namesFrom_mem stem style n rest (i + 1) x h
+      exact ⟨j, l, by omega, by simp only [List.length_cons]; omega, h3⟩
+
+/-- **file names are pairwise different for `nameStyle` None and `'append'`** (they are not for `'label'` and
+`'append_no_i'` when labels repeat: known finding C17-3, `split_label_collision`) -/
+theorem split_names_nodup {α} (stem : String) (style : NameStyle) (hs : style = .default ∨ style = .append) (n : Nat) :
+    ∀ (es : List (Iv α)) (i : Nat), i + es.length ≤ n → (namesFrom stem style n i es).Nodup
+  | [], _, _ => List.nodup_nil
+  | iv :: rest, i, h => by
+    simp only [List.length_cons] at h
+    simp only [namesFrom, List.nodup_cons]
+    refine ⟨?_, split_names_nodup stem style hs n rest (i + 1) (by omega)⟩
+    intro hmem
+    obtain ⟨j, l, h1, h2, h3⟩ := namesFrom_mem stem style n rest (i + 1) _ hmem
+    have := outputName_inj stem style hs n i j (by omega) (by omega) _ _ h3
+    omega
+
+/-- two entries with the same label get the same file name under `'label'` and `'append_no_i'`: the later file
+overwrites the earlier one (known finding C17-3) -/
+theorem split_label_collision (stem : String) (n i j : Nat) (l : String) :
+    outputName stem .label n i l = outputName stem .label n j l ∧
+    outputName stem .appendNoI n i l = outputName stem .appendNoI n j l := ⟨rfl, rfl⟩
+
+/-! ### frames (exact instance: a timestamp `k` is `k / den`) -/
+
+/-- **each written wave file holds the source's parameters and exactly the window of its entry** -/
+theorem split_frames (den : Nat) (hden : 0 < den) (f : WavFile) (g : Tg Int) (stem : String) (flag : TgFlag)
+    (style : NameStyle) (noPartial : Bool) (n : Nat) : ∀ (i : Nat) (es : List (Iv Int)) (outs : List (SplitOut Int)),
+      SplitRel (fun k => ⟨k, den⟩) f g stem flag style noPartial n i es outs →
+      (∀ iv ∈ es, 0 ≤ iv.s ∧ iv.s ≤ iv.e ∧ idx den f.rate iv.e ≤ f.nframes) →
+      outs.map (·.wav) = es.map (fun iv => ⟨f.width, f.rate, window den f (iv.s, iv.e)⟩)
+  | _, [], [], _, _ => rfl
+  | i, iv :: rest, o :: outs, ⟨⟨_, h2, h3, h4, _⟩, hrest⟩, hin => by
+    obtain ⟨a1, a2, a3⟩ := hin iv (by simp)
+    have ih := split_frames den hden f g stem flag style noPartial n (i + 1) rest outs hrest
+      (fun x hx => hin x (List.mem_cons_of_mem _ hx))
+    have hw : o.wav = ⟨f.width, f.rate, window den f (iv.s, iv.e)⟩ := by
+      unfold QueryWav.getFrames at h2
+      simp only [Option.getD_some] at h2
+      rw [read_window den hden f iv.s iv.e a1 a2 a3] at h2
+      have hd := Except.ok.inj h2
+      cases hwav : o.wav with
+      | mk w r d =>
+        rw [hwav] at h3 h4 hd
+        simp only at h3 h4 hd
+        rw [h3, h4, ← hd]
+    simp only [List.map_cons, hw, ih]
+  | _, [], _ :: _, h, _ => by cases h
+  | _, _ :: _, [], h, _ => by cases h
+
+/-! ### the cropped TextGrids -/
+
+/-- rebased crop of a well-formed interval tier in strict or truncated mode: span exactly `[0, b - a]`, the entries
+are the selection shifted by `a` -/
+theorem icrop_span (t : ITier Int) (hwf : t.WF) (a b : Int) (hab : a < b) (m : CropMode) (hm : m ≠ .lax) :
+    ∃ t', t.crop a b m true = .ok t' ∧ t'.name = t.name ∧ t'.lo = 0 ∧ t'.hi = b - a ∧
+      t'.es = (getIvs a b m t.es).map (shiftIv a) := by
+  obtain ⟨t', h1, _, h3, h4, h5, h6⟩ := C06.crop_rebase t hwf a b hab m
+  have hin : ∀ o ∈ getIvs a b m t.es, a ≤ o.s ∧ o.e ≤ b := by
+    intro o ho
+    obtain ⟨iv, hiv, hfo⟩ := List.mem_filterMap.1 ho
+    exact C06.cropOne_inside a b m hm iv o (hwf.pos iv hiv) hab hfo
+  have hd : rebaseDelta a (getIvs a b m t.es) = a := by
+    cases hsel : getIvs a b m t.es with
+    | nil => rfl
+    | cons x rest =>
+      have := (hin x (by rw [hsel]; simp)).1
+      simp only [rebaseDelta]
+      rw [if_neg (by omega)]
+  rw [hd] at h4
+  refine ⟨t', h1, h3, h5, ?_, h4⟩
+  rw [h6]
+  apply hullMax_eq_of_ge
+  intro x hx
+  rw [h4] at hx
+  simp only [List.map_map, List.mem_map, Function.comp] at hx
+  obtain ⟨o, ho, rfl⟩ := hx
+  have := (hin o ho).2
+  simp only [shiftIv]; omega
+
+theorem anycrop_span (t : AnyTier Int) (hwf : C12.AnyWF t) (a b : Int) (hab : a < b) (m : CropMode) (hm : m ≠ .lax)
+    (t' : AnyTier Int) (h : t.crop a b m true = .ok t') : t'.lo = 0 ∧ t'.hi = b - a := by
+  cases t with
+  | I t =>
+    obtain ⟨z, hz, _, h3, h4, _⟩ := icrop_span t hwf a b hab m hm
+    obtain ⟨z', hz', rfl⟩ := C12.map_ok h
+    rw [hz] at hz'; cases hz'
+    exact ⟨h3, h4⟩
+  | P t =>
+    obtain ⟨z, hz, _, _, _, h5, h6⟩ := C06.pcrop_spec t hwf a b hab true
+    obtain ⟨z', hz', rfl⟩ := C12.map_ok h
+    rw [hz] at hz'; cases hz'
+    refine ⟨?_, ?_⟩
+    · show z.lo = 0; simpa using h5
+    · show z.hi = b - a; simpa using h6
+
+theorem fold_span (f : AnyTier Int → Except Err (AnyTier Int)) (rep : Report) (lo hi : Int) :
+    ∀ (l : List (AnyTier Int)) (acc g' : Tg Int), (∀ t ∈ l, ∀ t', f t = .ok t' → t'.lo = lo ∧ t'.hi = hi) →
+      acc.lo = some lo → acc.hi = some hi →
+      l.foldlM (fun acc t => do let t' ← f t; acc.addTier t' none rep) acc = .ok g' →
+      g'.lo = some lo ∧ g'.hi = some hi
+  | [], acc, g', _, h1, h2, h => by
+    have : acc = g' := C12.pure_ok h
+    subst this; exact ⟨h1, h2⟩
+  | a :: l, acc, g', hf, h1, h2, h => by
+    rw [List.foldlM_cons] at h
+    obtain ⟨acc1, ha, hrest⟩ := C12.bind_ok h
+    obtain ⟨t', h3, h4⟩ := C12.bind_ok ha
+    obtain ⟨_, _, rfl⟩ := C12.addTier_inv h4
+    obtain ⟨e1, e2⟩ := hf a (by simp) t' h3
+    apply fold_span f rep lo hi l _ g' (fun t ht => hf t (List.mem_cons_of_mem _ ht)) ?_ ?_ hrest
+    · simp only [h1, e1, C12.widenLo]; congr 1; omega
+    · simp only [h2, e2, C12.widenHi]; congr 1; omega
+
+/-- **the cropped TextGrid of an entry spans exactly `[0, end − start]`** (all tiers of the source well-formed;
+`noPartialIntervals` either way; all tiers or only the requested one) -/
+theorem split_tg_span (g : Tg Int) (hwf : ∀ t ∈ g.tiers, C12.AnyWF t) (s e : Int) (hse : s < e) (noPartial : Bool)
+    (flag : TgFlag) (sub : Tg Int) (h : splitTg g s e noPartial flag = .ok (some sub)) :
+    sub.lo = some 0 ∧ sub.hi = some (e - s) := by
+  have hm : splitMode noPartial ≠ .lax := by unfold splitMode; split <;> simp
+  have key : ∀ g', g.crop s e (splitMode noPartial) true = .ok g' → g'.lo = some 0 ∧ g'.hi = some (e - s) := by
+    intro g' hc
+    unfold Tg.crop at hc
+    rw [if_neg (by omega)] at hc
+    exact fold_span _ _ 0 (e - s) g.tiers _ g'
+      (fun t ht t' ht' => anycrop_span t (hwf t ht) s e hse _ hm t' ht') rfl rfl hc
+  cases flag with
+  | off => simp [splitTg] at h
+  | all =>
+    obtain ⟨z, hz, hz'⟩ := C12.map_ok h
+    cases hz'
+    exact key _ hz
+  | only n =>
+    obtain ⟨z, hz, hz'⟩ := C12.map_ok h
+    cases hz'
+    exact key z hz
+
+/-- **… and contains the entry's label**: the tier the recording is split on appears in the cropped TextGrid (when all
+tiers or that tier are requested) with the entry `(0, end − start, label)` -/
+theorem split_tg_label (g : Tg Int) (hwf : ∀ t ∈ g.tiers, C12.AnyWF t) (t : ITier Int) (ht : AnyTier.I t ∈ g.tiers)
+    (iv : Iv Int) (hiv : iv ∈ t.es) (noPartial : Bool) (flag : TgFlag) (hflag : flag = .all ∨ flag = .only t.name)
+    (sub : Tg Int) (h : splitTg g iv.s iv.e noPartial flag = .ok (some sub)) :
+    ∃ t', AnyTier.I t' ∈ sub.tiers ∧ t'.name = t.name ∧ (⟨0, iv.e - iv.s, iv.l⟩ : Iv Int) ∈ t'.es := by
+  have htw : t.WF := hwf _ ht
+  have hse : iv.s < iv.e := htw.pos iv hiv
+  have hm : splitMode noPartial ≠ .lax := by unfold splitMode; split <;> simp
+  obtain ⟨t', hc, hn, _, _, hes⟩ := icrop_span t htw iv.s iv.e hse _ hm
+  have hmem : (⟨0, iv.e - iv.s, iv.l⟩ : Iv Int) ∈ t'.es := by
+    rw [hes]
+    refine List.mem_map.2 ⟨iv, ?_, by simp [shiftIv]⟩
+    refine List.mem_filterMap.2 ⟨iv, hiv, ?_⟩
+    unfold cropOne
+    rw [if_neg (by omega), if_pos ⟨Int.le_refl _, Int.le_refl _⟩]
+  have key : ∀ g', g.crop iv.s iv.e (splitMode noPartial) true = .ok g' → AnyTier.I t' ∈ g'.tiers := by
+    intro g' hg'
+    obtain ⟨ts, e1, e2⟩ := C12.crop_tiers hg'
+    obtain ⟨i, hi⟩ := List.getElem?_of_mem ht
+    obtain ⟨_, hget⟩ := C12.mapM_getElem _ _ _ e1
+    obtain ⟨u, hu1, hu2⟩ := hget i _ hi
+    have : AnyTier.crop (AnyTier.I t) iv.s iv.e (splitMode noPartial) true = .ok (AnyTier.I t') := by
+      show AnyTier.I <$> t.crop iv.s iv.e (splitMode noPartial) true = _
+      rw [hc]; rfl
+    rw [this] at hu2; cases hu2
+    rw [e2]; exact List.mem_of_getElem? hu1
+  rcases hflag with rfl | rfl
+  · obtain ⟨z, hz, hz'⟩ := C12.map_ok h
+    cases hz'
+    exact ⟨t', key _ hz, hn, hmem⟩
+  · obtain ⟨z, hz, hz'⟩ := C12.map_ok h
+    cases hz'
+    refine ⟨t', ?_, hn, hmem⟩
+    simp only
+    refine List.mem_filter.2 ⟨key _ hz, ?_⟩
+    simp [AnyTier.name, hn]
+
+
+/-! ## 13. non-vacuity and illustrations -/
+
+/-- 16 one-byte samples at 8 Hz: two seconds; times below are numerators over `den = 8` (or 80) -/
+def exFile : WavFile := ⟨1, 8, [1, 2, 3, 4, 5, 6, 7, 8, 9, 10, 11, 12, 13, 14, 15, 16]⟩
+/-- 8 two-byte samples at 8 Hz -/
+def exFile2 : WavFile := ⟨2, 8, [1, 0, 2, 0, 3, 0, 4, 0, 5, 0, 6, 0, 7, 0, 8, 0]⟩
+def exKeep : List (Int × Int) := [(2, 4), (4, 6), (10, 16)]
+
+/-- the hypotheses of `keep_spec_partial`, `delete_spec`, `replace_keep`, `replace_delete` are satisfiable together -/
+theorem ex_hypotheses :
+    DurOk 8 exFile 16 ∧ SortedDisjoint exKeep 0 16 ∧ exKeep ≠ [] ∧
+    (∀ p ∈ exKeep, OnGrid 8 exFile.rate p.1 ∧ OnGrid 8 exFile.rate p.2) ∧ OnGrid 8 exFile.rate 16 ∧
+    GenOk 8 exFile (generateSilence 8 exFile.rate exFile.width) := by
+  refine ⟨by decide, by decide, by decide, ?_, ⟨16, by decide⟩, silence_genOk 8 exFile⟩
+  intro p hp
+  exact ⟨⟨p.1, Int.mul_comm _ _⟩, ⟨p.2, Int.mul_comm _ _⟩⟩
+
+/-- … and the theorems then give the concrete results (keep, delete, replacement) -/
+theorem ex_results :
+    readFramesAtTimes 8 exFile 16 exKeep [] none = .ok [3, 4, 5, 6, 11, 12, 13, 14, 15, 16] ∧
+    readFramesAtTimes 8 exFile 16 [] exKeep none = .ok [1, 2, 7, 8, 9, 10] ∧
+    complement 0 exKeep 16 = [(0, 2), (6, 10)] := by
+  obtain ⟨h1, h2, h3, _⟩ := ex_hypotheses
+  refine ⟨?_, ?_, by decide⟩
+  · rw [keep_spec_partial 8 (by decide) exFile 16 h1 exKeep h2 h3]; decide
+  · rw [delete_spec 8 (by decide) exFile 16 h1 exKeep h2]; decide
+
+/-- off the sample grid (times in 1/80 s): each boundary is rounded once, so the windows of a delete list and of
+its complement tile the recording — nothing is dropped or read twice -/
+theorem ex_offgrid :
+    DurOk 80 exFile 160 ∧ SortedDisjoint [(23, 47), (47, 101)] 0 160 ∧
+    complement 0 [(23, 47), (47, 101)] 160 = [(0, 23), (101, 160)] ∧
+    [(0, 23), (23, 47), (47, 101), (101, 160)].flatMap (window 80 exFile) = exFile.data := by decide
+
+example : DurOk 8 exFile2 8 ∧ SortedDisjoint [(0, 3), (5, 8)] 0 8 := by decide
+/-- a duration that is the binary64 quotient rather than the exact one still satisfies `DurOk`
+(3 samples at 10 Hz: `3 / 10.0 = 5404319552844595 / 2^54`) -/
+example : DurOk 18014398509481984 ⟨1, 10, [1, 2, 3]⟩ 5404319552844595 := by decide
+
+-- evaluated illustrations (interpreter tests, not proofs)
+#guard (computeKeepDelete 0 16 exKeep []).toOption ==
+  some [⟨0, 2, false⟩, ⟨2, 4, true⟩, ⟨4, 6, true⟩, ⟨6, 10, false⟩, ⟨10, 16, true⟩]
+#guard (computeKeepDelete 0 16 [] exKeep).toOption ==
+  some [⟨0, 2, true⟩, ⟨2, 4, false⟩, ⟨4, 6, false⟩, ⟨6, 10, true⟩, ⟨10, 16, false⟩]
+#guard (computeKeepDelete 0 16 [] [(0, 16)]).toOption == some [⟨0, 16, false⟩]
+#guard (computeKeepDelete 0 16 [(3, 3)] []).toOption == none
+#guard readFramesAtTimes 8 exFile 16 exKeep [] (some (generateSilence 8 8 1)) =
+  .ok [0, 0, 3, 4, 5, 6, 0, 0, 0, 0, 11, 12, 13, 14, 15, 16]
+#guard readFramesAtTimes 8 exFile 16 [] exKeep (some (generateSilence 8 8 1)) =
+  .ok [1, 2, 0, 0, 0, 0, 7, 8, 9, 10, 0, 0, 0, 0, 0, 0]
+#guard readFramesAtTimes 8 exFile 16 [] [(0, 16)] none = .ok []
+#guard readFramesAtTimes 8 exFile 16 [] [] none = .ok exFile.data
+#guard readFramesAtTimes 8 exFile 16 [(2, 4)] [(6, 8)] none = .error (.praat .ArgumentError)
+#guard readFramesAtTimes 8 exFile 16 [(2, 17)] [] none = .error (.praat .ArgumentError)
+#guard readFramesAtTimes 8 exFile 16 [] [(20, 24)] none = .error (.praat .ArgumentError)
+#guard readFramesAtTimes 8 exFile 16 [(-8, 4)] [] none = .error (.audio .WaveError)
+#guard readFramesAtTimes 8 exFile2 8 [] [(3, 5)] (some (generateSilence 8 8 2)) =
+  .ok [1, 0, 2, 0, 3, 0, 0, 0, 0, 0, 6, 0, 7, 0, 8, 0]
+#guard readFramesAtTimes 80 exFile 160 [] [(23, 47), (47, 101)] none = .ok [1, 2, 11, 12, 13, 14, 15, 16]
+-- overlapping keep list (malformed): the stretch is read twice, a negative replacement duration yields nothing
+#guard readFramesAtTimes 8 exFile 16 [(2, 6), (4, 8)] [] (some (generateSilence 8 8 1)) =
+  .ok [0, 0, 3, 4, 5, 6, 5, 6, 7, 8, 0, 0, 0, 0, 0, 0, 0, 0]
+#guard generateSilence 10 8 2 3 = [0, 0, 0, 0] && generateSilence 10 8 2 (-3) = [] && sineCount 2 8 1 = 4
+#guard (generateSineWave 2 8 1 (fun i => [0, 127, 0, -127][i]!) 1) = .ok [0, 127, 0, 129]
+#guard extractSubwav exFile ⟨3, 10⟩ ⟨8, 10⟩ = .ok ⟨1, 8, [3, 4, 5, 6]⟩
+#guard outputName "rec" .default 12 3 "a" = "rec_03" && outputName "rec" .append 12 3 "a" = "rec_03_a" &&
+  outputName "rec" .appendNoI 12 3 "a" = "rec_a" && outputName "rec" .label 12 3 "a" = "a" &&
+  outputName "rec" .default 9 3 "a" = "rec_3" && outputName "rec" .default 100 7 "a" = "rec_007"
+
+def exTg : Tg Int := ⟨[.I ⟨"words", [⟨4, 8, "a"⟩, ⟨8, 12, "b"⟩], 0, 16⟩, .I ⟨"phones", [⟨2, 6, "p"⟩], 0, 16⟩,
+  .P ⟨"pts", [⟨8, "x"⟩], 0, 16⟩], some 0, some 16⟩
+
+#guard ((splitAudioOnTier (fun k => ⟨k, 8⟩) exFile exTg "words" "rec" .all .append false none).toOption.map
+    fun outs => outs.map fun o => (o.name, o.wav.data, o.tg.map fun t => (t.lo, t.hi, t.tiers.length))) ==
+  some [("rec_0_a", [5, 6, 7, 8], some (some 0, some 4, 3)), ("rec_1_b", [9, 10, 11, 12], some (some 0, some 4, 3))]
+#guard (splitAudioOnTier (fun k => ⟨k, 8⟩) exFile exTg "words" "rec" .off .default false (some "a")).toOption.map
+    (fun outs => outs.map (·.name)) == some ["rec_0"]
+#guard (splitAudioOnTier (fun k => ⟨k, 8⟩) exFile exTg "pts" "rec" .off .default false none).toOption.isNone
+#guard ((splitTg exTg 4 8 true (.only "phones")).toOption.map fun o => o.map fun t => t.tiers.length) == some (some 1)
+
+end C17
